@@ -206,7 +206,10 @@ async def explore(pid, tier, seed, m, v, known, budget_s, extra_cases=None):
         sg = SchemaGen(rng)
         sg.exc_items = prof.get("exc_items", 0.0)
         renv = sg.gen_env(adv=prof["adv"], fail=prof["fail"])
+        mixed = sg.mixed_scenario(renv)
         b = await er.build_engine(sg.model(), renv)
+        for q in mixed:
+            account(await run_case(m, b, renv, q, None, None))
         for di in range(ndocs):
             dg = DocGen(sg, rng, op_kinds=("query", "mutation") if sg.mutation else ("query",))
             dg.nested_vars = prof.get("nested_vars", False)
